@@ -3,9 +3,13 @@
 # with the axiom summary (-o).  Output: coq/coqchk.log.  Takes several minutes.
 cd "$(dirname "$0")/../coq" || exit 2
 mods=$(python3 - <<'PY'
-import json
+import json, glob, os
 m=json.load(open('../MANIFEST.json'))
-print(' '.join('TV.%s.Props' % c['property_id'] for c in m['checks']))
+mods=[]
+for c in m['checks']:
+    for f in sorted(glob.glob('%s/Props*.v' % c['property_id'])):
+        mods.append('TV.%s.%s' % (c['property_id'], os.path.basename(f)[:-2]))
+print(' '.join(mods))
 PY
 )
 echo "coqchk -silent -o -Q . TV $mods" > coqchk.log
